@@ -266,6 +266,9 @@ func (s *sim) mkNode(n *NodeSpec) *corev1.Node {
 		node.Spec.Taints = append(node.Spec.Taints, corev1.Taint{Key: t.Key, Value: t.Value, Effect: corev1.TaintEffect(t.Effect)})
 	}
 	world.SetNodeReady(node, !n.NotReady && (n.Stage == "initialized" || !n.Managed), at(n.CreatedAt))
+	for _, k := range n.DropLabels { // C18
+		delete(node.Labels, frameLabelKey(k))
+	}
 	return node
 }
 
@@ -352,18 +355,20 @@ func req(name, ns string) reconcile.Request {
 // restart builds fresh in-memory components (cluster state, provisioner, queue, controllers).
 func (s *sim) restart() {
 	w := s.w
-	s.cluster = state.NewCluster(w.Clock, w.Client, w.Prov)
-	s.cost = cost.NewClusterCost(s.ctx, w.Prov, w.Client)
-	s.prov = provisioning.NewProvisioner(w.Client, w.Rec, w.Prov, s.cluster, w.Clock, nil, virtualpods.NewVirtualPodCache(w.Client))
+	cp := s.frameNewProvider() // C18: the harness provider, or (options.nodeOverlay) decorated with a fresh overlay store (x_frame.go)
+	s.cluster = state.NewCluster(w.Clock, w.Client, cp)
+	s.cost = cost.NewClusterCost(s.ctx, cp, w.Client)
+	s.prov = provisioning.NewProvisioner(w.Client, w.Rec, cp, s.cluster, w.Clock, nil, virtualpods.NewVirtualPodCache(w.Client))
+	s.frameOverlayController() // C18: the nodeoverlay controller (undecorated provider), no-op without the feature gate
 	s.queue = kdisruption.NewQueue(w.Client, w.Rec, s.cluster, w.Clock, s.prov)
-	s.ctrl = kdisruption.NewController(w.Clock, w.Client, s.prov, w.Prov, w.Rec, s.cluster, s.queue, s.cost)
+	s.ctrl = kdisruption.NewController(w.Clock, w.Client, s.prov, cp, w.Rec, s.cluster, s.queue, s.cost)
 	s.infNode = informer.NewNodeController(w.Client, s.cluster)
-	s.infClaim = informer.NewNodeClaimController(w.Client, w.Prov, s.cluster, s.cost)
+	s.infClaim = informer.NewNodeClaimController(w.Client, cp, s.cluster, s.cost)
 	s.infPod = informer.NewPodController(w.Client, s.cluster)
-	s.infPool = informer.NewNodePoolController(w.Client, w.Prov, s.cluster, s.cost)
+	s.infPool = informer.NewNodePoolController(w.Client, cp, s.cluster, s.cost)
 	s.infDS = informer.NewDaemonSetController(w.Client, s.cluster)
-	s.ncd = ncdisruption.NewController(w.Clock, w.Client, w.Prov)
-	s.podev = podevents.NewController(w.Clock, w.Client, w.Prov)
+	s.ncd = ncdisruption.NewController(w.Clock, w.Client, cp)
+	s.podev = podevents.NewController(w.Clock, w.Client, cp)
 }
 
 // deliver runs the informer reconcile of one object (the watch event the real operator would get).
@@ -386,6 +391,7 @@ func (s *sim) deliver(kind, name, ns string) {
 
 // hydrate delivers every stored Node/NodeClaim/Pod/NodePool to the informer controllers.
 func (s *sim) hydrate() {
+	s.frameReconcileOverlays() // C18: the instance type store must know the pools before anything resolves instance types
 	var pools v1.NodePoolList
 	s.w.List(&pools)
 	for i := range pools.Items {
@@ -498,6 +504,9 @@ func (s *sim) build() error {
 		pdb := s.mkPDB(&sc.PDBs[i])
 		w.EnvCreate(pdb)
 		s.emitObj(pdb)
+	}
+	for i := range sc.Overlays { // C18
+		w.EnvCreate(s.mkOverlay(&sc.Overlays[i]))
 	}
 	s.restart()
 	s.hydrate()
@@ -632,6 +641,7 @@ func (s *sim) optionsCtx() context.Context {
 		}
 		op.FeatureGates.SpotToSpotConsolidation = o.SpotToSpot
 		op.FeatureGates.CapacityBuffer = o.CapacityBuffer
+		op.FeatureGates.NodeOverlay = o.NodeOverlay
 	})
 }
 
